@@ -3,8 +3,11 @@
 package mod_prison
 
 import (
+	"container/list"
 	"net"
+	"reflect"
 	"sync/atomic"
+	"unsafe"
 
 	"github.com/baidu/go-lib/lru_cache"
 
@@ -14,12 +17,12 @@ import (
 
 // VerifPrison drives prisonRule.recordAndCheck (C53) with a virtual clock: the rule reads time.Now(), so the
 // passage of dt nanoseconds is emulated by moving every stored timestamp (AccessCounter.startTime, prison
-// free time) back by dt before the request.  Dictionaries are large enough that nothing is evicted.
+// free time) back by dt before the request.  Dictionary sizes are parameters (LRU eviction is part of the model).
 type VerifPrison struct {
 	r *prisonRule
 }
 
-func VerifNewPrison(checkPeriodNs, stayPeriodNs int64, threshold int32, dictSize int) *VerifPrison {
+func VerifNewPrison(checkPeriodNs, stayPeriodNs int64, threshold int32, accessDictSize, prisonDictSize int) *VerifPrison {
 	r := new(prisonRule)
 	r.name = "verif"
 	r.condStr = "default_t()"
@@ -27,27 +30,44 @@ func VerifNewPrison(checkPeriodNs, stayPeriodNs int64, threshold int32, dictSize
 	r.checkPeriodNs = checkPeriodNs
 	r.stayPeriodNs = stayPeriodNs
 	r.threshold = threshold
-	r.accessDict = lru_cache.NewLRUCache(dictSize)
-	r.prisonDict = lru_cache.NewLRUCache(dictSize)
+	r.accessDictSize = accessDictSize
+	r.prisonDictSize = prisonDictSize
+	r.initDict(nil)
 	return &VerifPrison{r: r}
 }
 
-// Advance emulates dt nanoseconds passing.
+// lruKeysOldestFirst reads the recency order of an LRUCache (unexported list) without changing it.
+func lruKeysOldestFirst(c *lru_cache.LRUCache) []interface{} {
+	f := reflect.ValueOf(c).Elem().FieldByName("lru")
+	l := *(**list.List)(unsafe.Pointer(f.UnsafeAddr()))
+	var keys []interface{}
+	for e := l.Back(); e != nil; e = e.Prev() {
+		kf := reflect.ValueOf(e.Value).Elem().FieldByName("key")
+		keys = append(keys, reflect.NewAt(kf.Type(), unsafe.Pointer(kf.UnsafeAddr())).Elem().Interface())
+	}
+	return keys
+}
+
+// Advance emulates dt nanoseconds passing.  Entries are touched from the least to the most recently used one, so
+// that the recency order of both dictionaries (which decides evictions) is exactly what it was.
 func (v *VerifPrison) Advance(dt int64) {
 	if dt == 0 {
 		return
 	}
-	for _, k := range v.r.accessDict.Keys() {
+	for _, k := range lruKeysOldestFirst(v.r.accessDict) {
 		if x, ok := v.r.accessDict.Get(k); ok {
 			atomic.AddInt64(&x.(*AccessCounter).startTime, -dt)
 		}
 	}
-	for _, k := range v.r.prisonDict.Keys() {
+	for _, k := range lruKeysOldestFirst(v.r.prisonDict) {
 		if x, ok := v.r.prisonDict.Get(k); ok {
 			v.r.prisonDict.Add(k, x.(int64)-dt)
 		}
 	}
 }
+
+// Lens returns the number of entries of the access and prison dictionaries.
+func (v *VerifPrison) Lens() (int, int) { return v.r.accessDict.Len(), v.r.prisonDict.Len() }
 
 // Request runs recordAndCheck for the client identified by key (key < 0: request without client address).
 func (v *VerifPrison) Request(key int) bool {
